@@ -270,9 +270,9 @@ def s_collapse_slice(ctx):
         d = rt[axis]
     ctx.assume(d <= T.INT64_MAX)   # a tensor extent is an int64
     first, stop = T.onnx_norm(d, s, e, st)
-    whole = z3.Or(d == 0, z3.And(first == 0, stop == d))
-    ctx.check("C09.rules.collapse_slice.selects_the_whole_axis_for_every_binding", z3.Implies(z3.And(s == 0, st == 1), whole), CL09)
-    ctx.check("C05.rules.collapse_slice.selects_the_whole_axis_for_every_binding", z3.Implies(z3.And(s == 0, st == 1), whole), CL09)
+    whole = z3.Or(d == 0, z3.And(st == 1, first == 0, stop == d))
+    ctx.check("C09.rules.collapse_slice.selects_the_whole_axis_for_every_binding", whole, CL09)
+    ctx.check("C05.rules.collapse_slice.selects_the_whole_axis_for_every_binding", whole, CL09)
 
 
 SCENARIOS.append(Scenario("C09.rules.collapse_slice", s_collapse_slice,
